@@ -362,7 +362,8 @@ type Stats struct {
 	TransRefused      int
 	TransOpen         int
 	RowsWritten       int
-	DropSinceOpen     int // drops+renames since the last reopen
+	LastWasPersist    bool // the previous step was an explicit persist
+	DropSinceOpen     int  // drops+renames since the last reopen
 	PersistsSinceOpen int
 }
 
